@@ -159,3 +159,46 @@ func TestZZReplay(t *testing.T) {
 		},
 	})
 }
+
+func init() {
+	// encodeToFile: the temporary file is renamed over the metadata although the encoder failed
+	replayTemplates = append(replayTemplates, replayTemplate{
+		match: func(o *Obligation) bool {
+			return o.Fn == "replica.Replica.encodeToFile" && (strings.HasPrefix(o.Kind, "callpre:Rename") || strings.HasPrefix(o.Kind, "post#ok") || strings.HasPrefix(o.Kind, "post#fail"))
+		},
+		scripted: true,
+		pkg:      "replica",
+		tags:     "debug",
+		gen: func(o *Obligation, vals map[string]string) (string, bool) {
+			return `package replica
+
+import (
+	"io/ioutil"
+	"math"
+	"os"
+	"path/filepath"
+	"testing"
+)
+
+func TestZZReplay(t *testing.T) {
+	dir, _ := ioutil.TempDir("", "zzreplay")
+	defer os.RemoveAll(dir)
+	r := &Replica{dir: dir}
+	good := map[string]string{"head": "volume-head-000.img"}
+	if err := r.encodeToFile(good, "volume.meta"); err != nil {
+		t.Fatalf("setup: %v", err)
+	}
+	before, _ := ioutil.ReadFile(filepath.Join(dir, "volume.meta"))
+	// an object the JSON encoder cannot encode: the write of the temporary file fails part-way
+	err := r.encodeToFile(math.Inf(1), "volume.meta")
+	after, _ := ioutil.ReadFile(filepath.Join(dir, "volume.meta"))
+	t.Logf("encodeToFile(unencodable) err=%v; volume.meta before=%q after=%q", err, before, after)
+	if err == nil || string(after) != string(before) {
+		t.Fatalf("REPLAY-REPRODUCED: a failed encode was reported as err=%v and volume.meta went from %d to %d bytes", err, len(before), len(after))
+	}
+	t.Log("REPLAY-NOT-REPRODUCED")
+}
+`, true
+		},
+	})
+}
